@@ -9,7 +9,7 @@ TB = ["modelled, not verified: BTreeMap<PathBuf, Fingerprint> as a sorted associ
 def run(prop, tier, seed, replay):
     v = vlib.Verdict(prop, tier, seed)
     st = common.front(v, prop)
-    res = common.correspondence(v, st, prop, "c18", "c18", tier, seed, replay,
+    res = common.correspondence(v, st, prop, "c18", "c18", tier, seed, replay, canary_kind="c18",
                                 model_desc="Model/Reconcile.v", impl_desc="reconcile.rs reconcile_path/reconcile")
     common.verdict(v, st, prop, res)
     common.proof_coverage(v, st, prop, TB)
@@ -19,6 +19,6 @@ def run(prop, tier, seed, replay):
                                trees_3path=res["stats"].get("release.class_trees_3path_exhaustive", 0),
                                equality_patterns_covered=res["stats"].get("release.equality_patterns_covered", 0)),
         rule="reconcile_path: all 343 triples over {absent} + {3 digests} x {File, Symlink} (every equality pattern and type combination), random 32-byte digests from a 4-element pool with a one-bit near miss; reconcile: all 27^3 assignments of {absent, d1, d2} to (a, b, base) on the 3-path universe {a, b/c, b/d} x both trust settings, plus random trees (nested names, symlinks, base-only paths, shuffled insertion). Oracle on the real functions: documented table, mirror symmetry, invariance under an injective renaming of fingerprints, no delete without base, delete only with an equal survivor, tree result = non-Noop table entries over the sorted union. Output compared line by line with the extracted model. equality_patterns_covered counts the distinct (presence, a=b, a=base, b=base) patterns seen (15 exist). distinct_nontrivial = distinct case bodies with at least one side present (paths) / at least one action (trees).",
-        samples=res["samples"] or ["(none)"], distribution=res["stats"], disagreements=res["dis"]))
+        canary=res.get("canary", {}), samples=res["samples"] or ["(none)"], distribution=res["stats"], disagreements=res["dis"]))
     v.assumptions = TB
     return v.finish()
